@@ -9,6 +9,8 @@ mkdir -p bin work evidence replays
 (cd tools/extract && go build -o ../../bin/extract .)
 ./bin/extract "${VERIF_REPO:-/repo}" lean/SdbModel/Generated work/facts.json
 (cd lean && lake build SdbModel SdbModel.AuditCmd driver)
+# all theorem modules in one parallel build, so that no check has to wait for its proofs to compile
+(cd lean && lake build $(ls SdbModel/Props/*.lean | sed 's#/#.#g; s#\.lean$##'))
 cp "${VERIF_REPO:-/repo}/go.sum" harness/go.sum
 (cd harness && go build -tags verif -o ../bin/harness . && go test -c -tags verif -o ../bin/harness.test .)
 echo setup-ok
